@@ -344,6 +344,14 @@ func (d *driver) runPurityProgram(w emitter, pid int, line []byte) {
 						multiproof.CheckMultiProof(common.NewTranscript("purity-fail"), cfg, bad, cs, ys, zs)
 					}()
 				}
+				// failing prover calls: a polynomial of the wrong length, mismatched list lengths, no openings
+				func() {
+					defer func() { recover() }()
+					multiproof.CreateMultiProof(common.NewTranscript("purity-fail"), cfg, []*banderwagon.Element{&cm}, [][]fr.Element{f[:255]}, []uint8{z})
+					multiproof.CreateMultiProof(common.NewTranscript("purity-fail"), cfg, []*banderwagon.Element{&cm, &cm}, [][]fr.Element{f}, []uint8{z})
+					multiproof.CreateMultiProof(common.NewTranscript("purity-fail"), cfg, nil, nil, nil)
+					ipa.CreateIPAProof(common.NewTranscript("pf"), cfg, cm, f[:100], frFromBig(big.NewInt(3)))
+				}()
 				// the honest statement right after the failing calls
 				{
 					y, y2 := f[z], f[z]
@@ -410,7 +418,7 @@ func (d *driver) runPurityProgram(w emitter, pid int, line []byte) {
 		}
 		e["cfg"] = fpConfig(cfg)
 		e["pkg"] = fpPackage()
-		if o.Op == "probe" {
+		if o.Op == "probe" || o.Op == "failing" { // the fixed probe call (prove, verify, map, transcript) also right after the failing calls
 			e["probe"] = probe(cfg)
 		}
 		if o.Op == "tables" {
